@@ -3,7 +3,7 @@
 Obligations: T-invfilters (getter selectors, resolve_target_contracts, sender restriction,
 resolve_target_selectors regenerated from __main__.py), T-stateid (snapshot_state, the digest behind
 get_state_id, regenerated from cheatcodes.py), T-storedigest (StorageData.digest regenerated from
-sevm.py), T-pathslice (Path._get_related, the dependency update of Path.append, Path.slice regenerated from sevm.py; Exec.path_slice shape-checked), Props/C15.vo, lint, extraction.
+sevm.py), T-pathslice (Path._get_related, the dependency update of Path.append, Path.slice regenerated from sevm.py; Exec.path_slice shape-checked), T-probes (the decisions of _compute_frontier / CounterexampleHandler about probes_reported), Props/C15.vo, lint, extraction.  T-invfilters also regenerates the call sites (run_target_contract / _compute_frontier): targets are resolved per address, in the call that runs them.
 Ties:
   X-C15-stateid (inside L3): for the setUp state and every successful end state of every target
       transaction of every L3 run, the components of the state are read off the Exec (term ids, code
@@ -13,6 +13,11 @@ Ties:
       states; every condition on a state symbol is in the slice -- and (model) the extracted
       regenerated snapshot_state/StorageData.digest with a collision-free hash -- the same partition.
       The frontier model then de-duplicates by the MODEL's state ids.
+  X-C15-probes (inside L3): every target transaction that ends in an assertion failure is recorded with the
+      feasibility of its full path condition (z3), the functions marked as reported before / after
+      _compute_frontier examined it, whether it was handed to the solver and the solver's answer; compared
+      with (spec) a feasible failure of every failing function is submitted, a function is marked only when an
+      answer carried a model, and (model) the extracted regenerated decisions run over the same events.
   X-C15-filters (L1): the real resolve_target_contracts / resolve_target_selectors vs the
       extracted regenerated model vs an independent Python rendering of Foundry's rule, on an
       exhaustive grid of filter sets.
@@ -41,6 +46,7 @@ ASSUMPTIONS = [
     "state ids: C15_state_id_identical / C15_cover_snapshot assume collision-free hashes (xxh3_64 / xxh3_128 as injective functions into abstract digest types: a visible hypothesis), one storage-key shape per run (uniform_keys: visible hypothesis) and hash-consed terms (equal id = same term); a hash input is modelled as the list of its fixed-width items (32-byte words from int.to_bytes(_, length=32), 16-byte storage digests), not as bytes; CPython id() reuse for code objects and z3 AST id reuse are not modelled",
     "the slice: Path._get_related / the dependency update of Path.append / Path.slice are regenerated and proved to give exactly the BACKWARD dependency closure of the state variables (C15_slice_exact); that this is smaller than the constraints on the state is a machine-checked witness (C15_slice_closure_refuted) reproduced on the real code (known finding). The variables of a term (Path.get_var_set, z3) and the sources of the state variables in Exec.path_slice (balance, symbolic code chunks, stored values: shape-checked by the translator) are inputs of the model: on every recorded state the symbols are recomputed from the z3 terms by the harness and the model's slice is compared with Path.sliced",
     "the reference interpreter (Spec/Evm.v) is the EVM oracle; vm.roll/fee/chainId/warp in handlers are given their Foundry meaning by the harness (the block field changes for the rest of the sequence)",
+    "probes: the solver's answer for a candidate is an input of the probe model (C15_probe_genuine_reported assumes that every submitted query is answered: on the real code the answers of the last depth are often cut off by the executor shutdown, known finding F12); feasibility of a failing path is decided by the harness with z3 on the path conditions",
     "the extracted model and driver are faithful to the Coq definitions (extraction is trusted)",
 ]
 PARTIAL = ("the symbolic engine and the timestamp refresh are parameters of the frontier model (tied by feeding the model the outcomes recorded from the real run); the state id is the regenerated snapshot_state over the components recorded for each state (term ids, code identities, storage items, condition ids, slice), the slice the regenerated Path.slice over the recorded symbols of each condition; the two are not composed in one Coq function (term ids vs. symbols); "
@@ -792,7 +798,7 @@ def run(rep, tier):
         assumptions=ASSUMPTIONS,
         partial=PARTIAL,
         rule=("L1: filter sets over a 3-address universe (test contract + two targets): all combinations of targetContracts x excludeContracts x targetSelectors (absent/empty/non-empty per address) x deployed sets (sampled in quick, exhaustive in thorough); selector filters over an 11-method table with view/pure/payable/reserved names, on the test contract and on another contract; all sender filter combinations over 3 addresses. "
-              "L3: hand-written corpus (depth off-by-one, revisited states, arguments, every filter kind, senders, values, timestamps, cheatcode block fields, probes; state identity: functions that store an argument / the sender / msg.value and branch on it -- directly or through a related condition -- without changing storage differently, followed by calls enabled on one side of the branch) + grammar-generated targets (1-2 contracts, 1-3 guarded-transition functions over two slots, invariant on one slot, depth 0..3, random filter combination) + grammar-generated state-identity targets (stored source arg|sender|value, comparison gt|lt|eq, constant, store before or after the branch, enabled functions on either side, optional bystander, depth 2..3); "
+              "L3: hand-written corpus (depth off-by-one, revisited states, arguments, every filter kind, senders, values, timestamps, cheatcode block fields, probes; state identity: functions that store an argument / the sender / msg.value and branch on it -- directly or through a related condition -- without changing storage differently, followed by calls enabled on one side of the branch) + grammar-generated targets (1-2 contracts, 1-3 guarded-transition functions over two slots, invariant on one slot, depth 0..3, random filter combination) + grammar-generated state-identity targets (stored source arg|sender|value, comparison gt|lt|eq, constant, store before or after the branch, enabled functions on either side, optional bystander, depth 2..3) + grammar-generated instance targets (one contract deployed 2-3 times, a random targetSelectors / excludeSelectors entry per address) + grammar-generated probe targets (an assertion refuted only by the full query at one stage, a genuine one at another, stages reached as siblings or in a chain, random function order); "
               "expected verdict = breadth-first brute force of all admissible call sequences (arguments from the constants of the code +-1, senders from the filters and guards, values 0/1/guard constants for payable functions, non-decreasing timestamps from the guard thresholds) on the extracted reference interpreter; a case is non-trivial when depth >= 1 (L3) or some filter is non-empty (L1); distinct by hash of the case"),
     )
 
